@@ -600,12 +600,29 @@ def sexp(a):
     return Sym(X(tag, z3.If(a.t.tag == 0, e, z3.RealVal(0))), 'x4')
 
 
+def sqrt_uf(val):
+    """sqrt_uf(canonical form of the real term): polynomial arguments are expanded into a sorted sum of monomials so that two
+    different ways of computing the same polynomial meet in the same application (congruence does the rest)"""
+    if 'sq' not in _EXP:
+        _EXP['sq'] = z3.Function('sqrt_uf', z3.RealSort(), z3.RealSort())
+    v = z3.simplify(val, som=True, sort_sums=True, flat=True)
+    return _EXP['sq'](v), v
+
+
 def ssqrt(a):
     if not isinstance(a, Sym):
         with np.errstate(all='ignore'):
             return np.sqrt(a)
     if a.k in FSORT:
         return Sym(z3.fpSqrt(RNE, a.t), a.k)
+    if a.k == 'x4':
+        # exact domain: sqrt is an uninterpreted function over the reals with the axioms s >= 0, s*s == x for x >= 0 (recorded as
+        # path assumptions: "reals-for-floats", the rounding of the square root is outside the claim); negative / NaN -> NaN
+        e, v = sqrt_uf(a.t.val)
+        EX.assume(z3.Implies(v >= 0, z3.And(e >= 0, e * e == v)))
+        neg = z3.And(a.t.tag == 0, v < 0)
+        tag = z3.simplify(z3.If(neg, 1, z3.If(a.t.tag == 3, 1, a.t.tag)))
+        return Sym(X(tag, z3.If(z3.And(a.t.tag == 0, v >= 0), e, z3.RealVal(0))), 'x4')
     raise Unsupported('sqrt on kind %s' % a.k)
 
 
